@@ -39,6 +39,15 @@ def loop_ordinal(func, node):
 
 
 def loop_spec(eng, fr, node):
+    """(loop contract, ordinal).  A loop contract may be a callable fn(eng, frame, loop node, ordinal) -> contract dict: it is
+    computed at the loop head, from the loop as it is written (pyvc/progression.py derives invariants that way)."""
+    spec, o = _loop_spec(eng, fr, node)
+    if callable(spec):
+        spec = spec(eng, fr, node, o)
+    return spec, o
+
+
+def _loop_spec(eng, fr, node):
     func = fr.func
     if func is None:
         return None, None
